@@ -108,6 +108,7 @@ def install_simhash(salt):
     st.table = {}
     st.seq = 0
     st.keep = []  # keep numbered objects alive so ids are not reused within a run
+    BOOT_CHOICE_DEFAULTS.clear()
     h = _mk_hash()
     for cls in (core.Symbol, core.Choice, core.MenuNode):
         if cls not in _orig_hash:
@@ -125,4 +126,17 @@ def new_kconfig(path, parser=1, policy=None, extra_env=None, renames=None):
         k = core.Kconfig(path, parser_version=parser, print_report=False)
         if renames:
             k.load_rename_files(list(renames))
+    BOOT_CHOICE_DEFAULTS[id(k)] = (k, [list(c.defaults) for c in k.unique_choices])
     return k
+
+
+BOOT_CHOICE_DEFAULTS = {}
+
+
+def injected_choices(k):
+    """Indices of choices whose `defaults` were rewritten after boot (an injected
+    sdkconfig default selection; Choice has no flag for it)."""
+    ent = BOOT_CHOICE_DEFAULTS.get(id(k))
+    if not ent or ent[0] is not k:
+        return []
+    return [i for i, (c, d0) in enumerate(zip(k.unique_choices, ent[1])) if list(c.defaults) != d0]
